@@ -1140,16 +1140,19 @@ def cipher_suite_hash(cipher_suite: CipherSuite) -> hashes.HashAlgorithm:
 def decode_public_key(
     key_share: KeyShareEntry,
 ) -> Union[ec.EllipticCurvePublicKey, x25519.X25519PublicKey, x448.X448PublicKey, None]:
-    if key_share[0] == Group.X25519:
-        return x25519.X25519PublicKey.from_public_bytes(key_share[1])
-    elif key_share[0] == Group.X448:
-        return x448.X448PublicKey.from_public_bytes(key_share[1])
-    elif key_share[0] in GROUP_TO_CURVE:
-        return ec.EllipticCurvePublicKey.from_encoded_point(
-            GROUP_TO_CURVE[key_share[0]](), key_share[1]
-        )
-    else:
-        return None
+    try:
+        if key_share[0] == Group.X25519:
+            return x25519.X25519PublicKey.from_public_bytes(key_share[1])
+        elif key_share[0] == Group.X448:
+            return x448.X448PublicKey.from_public_bytes(key_share[1])
+        elif key_share[0] in GROUP_TO_CURVE:
+            return ec.EllipticCurvePublicKey.from_encoded_point(
+                GROUP_TO_CURVE[key_share[0]](), key_share[1]
+            )
+        else:
+            return None
+    except ValueError:
+        raise AlertIllegalParameter("Key share contains an invalid public key")
 
 
 def encode_public_key(
@@ -1656,26 +1659,36 @@ class Context:
         self._key_schedule_proxy = None
 
         # perform key exchange
+        if peer_hello.key_share is None:
+            raise AlertIllegalParameter("ServerHello has no key share")
         peer_public_key = decode_public_key(peer_hello.key_share)
         shared_key: Optional[bytes] = None
-        if (
-            isinstance(peer_public_key, x25519.X25519PublicKey)
-            and self._x25519_private_key is not None
-        ):
-            shared_key = self._x25519_private_key.exchange(peer_public_key)
-        elif (
-            isinstance(peer_public_key, x448.X448PublicKey)
-            and self._x448_private_key is not None
-        ):
-            shared_key = self._x448_private_key.exchange(peer_public_key)
-        elif isinstance(peer_public_key, ec.EllipticCurvePublicKey):
-            for ec_private_key in self._ec_private_keys:
-                if (
-                    ec_private_key.public_key().curve.__class__
-                    == peer_public_key.curve.__class__
-                ):
-                    shared_key = ec_private_key.exchange(ec.ECDH(), peer_public_key)
-        assert shared_key is not None
+        try:
+            if (
+                isinstance(peer_public_key, x25519.X25519PublicKey)
+                and self._x25519_private_key is not None
+            ):
+                shared_key = self._x25519_private_key.exchange(peer_public_key)
+            elif (
+                isinstance(peer_public_key, x448.X448PublicKey)
+                and self._x448_private_key is not None
+            ):
+                shared_key = self._x448_private_key.exchange(peer_public_key)
+            elif isinstance(peer_public_key, ec.EllipticCurvePublicKey):
+                for ec_private_key in self._ec_private_keys:
+                    if (
+                        ec_private_key.public_key().curve.__class__
+                        == peer_public_key.curve.__class__
+                    ):
+                        shared_key = ec_private_key.exchange(
+                            ec.ECDH(), peer_public_key
+                        )
+        except ValueError:
+            raise AlertIllegalParameter("Key exchange failed")
+        if shared_key is None:
+            raise AlertIllegalParameter(
+                "ServerHello has a key share for a group we did not offer"
+            )
 
         self.key_schedule.update_hash(input_buf.data)
         self.key_schedule.extract(shared_key)
@@ -1980,25 +1993,31 @@ class Context:
             ec.EllipticCurvePublicKey, x25519.X25519PublicKey, x448.X448PublicKey
         ]
         shared_key: Optional[bytes] = None
-        for key_share in peer_hello.key_share:
-            peer_public_key = decode_public_key(key_share)
-            if isinstance(peer_public_key, x25519.X25519PublicKey):
-                self._x25519_private_key = x25519.X25519PrivateKey.generate()
-                public_key = self._x25519_private_key.public_key()
-                shared_key = self._x25519_private_key.exchange(peer_public_key)
-                break
-            elif isinstance(peer_public_key, x448.X448PublicKey):
-                self._x448_private_key = x448.X448PrivateKey.generate()
-                public_key = self._x448_private_key.public_key()
-                shared_key = self._x448_private_key.exchange(peer_public_key)
-                break
-            elif isinstance(peer_public_key, ec.EllipticCurvePublicKey):
-                ec_private_key = ec.generate_private_key(GROUP_TO_CURVE[key_share[0]]())
-                self._ec_private_keys.append(ec_private_key)
-                public_key = ec_private_key.public_key()
-                shared_key = ec_private_key.exchange(ec.ECDH(), peer_public_key)
-                break
-        assert shared_key is not None
+        try:
+            for key_share in peer_hello.key_share or []:
+                peer_public_key = decode_public_key(key_share)
+                if isinstance(peer_public_key, x25519.X25519PublicKey):
+                    self._x25519_private_key = x25519.X25519PrivateKey.generate()
+                    public_key = self._x25519_private_key.public_key()
+                    shared_key = self._x25519_private_key.exchange(peer_public_key)
+                    break
+                elif isinstance(peer_public_key, x448.X448PublicKey):
+                    self._x448_private_key = x448.X448PrivateKey.generate()
+                    public_key = self._x448_private_key.public_key()
+                    shared_key = self._x448_private_key.exchange(peer_public_key)
+                    break
+                elif isinstance(peer_public_key, ec.EllipticCurvePublicKey):
+                    ec_private_key = ec.generate_private_key(
+                        GROUP_TO_CURVE[key_share[0]]()
+                    )
+                    self._ec_private_keys.append(ec_private_key)
+                    public_key = ec_private_key.public_key()
+                    shared_key = ec_private_key.exchange(ec.ECDH(), peer_public_key)
+                    break
+        except ValueError:
+            raise AlertIllegalParameter("Key exchange failed")
+        if shared_key is None:
+            raise AlertHandshakeFailure("No supported key share")
 
         # send hello
         hello = ServerHello(
